@@ -45,6 +45,13 @@ def run(ctx):
         pc.cfg(3, [1, 2, 99, 1], 2, 3, filt=[(2, 1)]),
         pc.cfg(2, [1, 99, 2], 1, 3, api=1),
         pc.cfg(1, [1, 1], 1, 40),      # serial stage with more queued items than the inline depth limit (32)
+        # transforms wrapped as dispenso::stage(f, 1) that return a REFERENCE (const Item&) to a result buffer they reuse for
+        # the next item (driver kind ops=2): the result has to be taken while the serial slot is held.  Generator limit > 1 and
+        # few workers give the stage a backlog, so its completion callback chains the next item (which overwrites the buffer);
+        # the receiving stage logs the identity found in what it RECEIVED, so a late read is an item delivered twice / lost.
+        pc.cfg(2, [2, 1, 1], 1, 4, ops=[2]),
+        pc.cfg(3, [3, 1, 1, 2], 2, 4, ops=[2, 2]) + '|' + pc.cfg(3, [1, 1, 1, 1], 2, 3, filt=[(1, 2)], ops=[1, 2]),
+        pc.cfg(2, [1, 1, 99], 0, 3, ops=[2]),
     ]
     progs = fixed + [_rand_prog(rng) for _ in range(20 if thorough else 4)]
     n = 12 if thorough else 3
@@ -61,7 +68,7 @@ def run(ctx):
 
 
 def _rand_prog(rng):
-    c, p = pc.random_cfg(rng, False)
+    c, p = pc.random_cfg(rng, False, refs=True)
     if rng.random() < 0.4:
-        c += '|' + pc.random_cfg(rng, False, p=p)[0]
+        c += '|' + pc.random_cfg(rng, False, p=p, refs=True)[0]
     return c
